@@ -205,17 +205,46 @@ _HEAVY = {}
 
 
 def heavy_strings(f):
-    """does the formula use string operations that make satisfiability checks slow (substrings, lengths of
-    concatenations, regular expressions, containment)?  Such facts are left out of *feasibility* queries only."""
+    """does the formula contain an *atom* that makes the string solver work (regular-expression membership,
+    containment, prefix/suffix tests, equations between compound string terms, length arithmetic)?  Such facts are
+    left out of *feasibility* queries only.  Compound strings that merely occur as arguments of uninterpreted
+    functions are harmless."""
     i = f.get_id()
     hit = _HEAVY.get(i)
     if hit is not None:
         return hit[1]
-    sx = f.sexpr()
-    r = any(k in sx for k in ("str.substr", "str.in_re", "str.contains", "str.prefixof", "str.suffixof", "str.++",
-                              "str.indexof", "str.replace", "str.from_int", "str.to_int"))
+    r = _heavy(f, 0)
     _HEAVY[i] = (f, r)
     return r
+
+
+_STR_PRED = None
+
+
+def _heavy(t, depth):
+    global _STR_PRED
+    if _STR_PRED is None:
+        _STR_PRED = {z3.Z3_OP_SEQ_IN_RE, z3.Z3_OP_SEQ_CONTAINS, z3.Z3_OP_SEQ_PREFIX, z3.Z3_OP_SEQ_SUFFIX}
+    if z3.is_quantifier(t):
+        return True
+    if not z3.is_app(t):
+        return False
+    k = t.decl().kind()
+    if k in (z3.Z3_OP_AND, z3.Z3_OP_OR, z3.Z3_OP_NOT, z3.Z3_OP_IMPLIES, z3.Z3_OP_ITE) and t.sort() == z3.BoolSort():
+        return any(_heavy(c, depth + 1) for c in t.children())
+    if k in _STR_PRED:
+        return True
+    if k in (z3.Z3_OP_EQ, z3.Z3_OP_DISTINCT) and t.num_args() == 2 and z3.is_string(t.arg(0)):
+        return any(_compound_string(a) for a in t.children())
+    if k in (z3.Z3_OP_LE, z3.Z3_OP_GE, z3.Z3_OP_LT, z3.Z3_OP_GT, z3.Z3_OP_EQ):
+        return "str.len" in t.sexpr() and any(op in t.sexpr() for op in ("str.substr", "str.++", "str.replace"))
+    return False
+
+
+def _compound_string(a):
+    if not z3.is_app(a):
+        return False
+    return a.decl().kind() in (z3.Z3_OP_SEQ_CONCAT, z3.Z3_OP_SEQ_EXTRACT, z3.Z3_OP_SEQ_REPLACE, z3.Z3_OP_SEQ_AT)
 
 
 
